@@ -39,6 +39,8 @@ type c19World struct {
 	pool   []string
 	parsed []ref.Pattern
 	depth  int
+	lent   []lentMW
+	poison muxMW
 }
 
 func (w *c19World) mws(env *mon.Env, names []string) []muxMW {
@@ -46,7 +48,27 @@ func (w *c19World) mws(env *mon.Env, names []string) []muxMW {
 	for _, n := range names {
 		out = append(out, env.MW(n))
 	}
+	// lists given to the facade side are lent (sentinels in the spare capacity, see lendMiddlewares) and, once the call
+	// has returned, overwritten by their owner
+	if env == w.envA {
+		a, lent := lendMiddlewares("a facade call", out)
+		w.lent = append(w.lent, lentMW{a, lent})
+		return lent
+	}
 	return out
+}
+
+func (w *c19World) settle() {
+	if w.poison == nil {
+		w.poison = w.envA.MW("POISON-the-callers-reused-slice")
+	}
+	for _, l := range w.lent {
+		l.a.check(l.lent)
+		for i := range l.lent {
+			l.lent[i] = w.poison
+		}
+	}
+	w.lent = w.lent[:0]
 }
 
 func (w *c19World) newNames(prefix string, n int) []string {
@@ -111,7 +133,7 @@ func (w *c19World) observe(rt *mux.Router[*mon.Hnd], q mon.Req) c19Outcome {
 }
 
 func routesKey(rt *mux.Router[*mon.Hnd]) string {
-	m := rt.Routes()
+	m := takeRoutes(rt)
 	ks := make([]string, 0, len(m))
 	for k := range m {
 		ks = append(ks, k)
@@ -126,6 +148,7 @@ func routesKey(rt *mux.Router[*mon.Hnd]) string {
 
 func (w *c19World) compareAll() {
 	c := w.c
+	w.settle()
 	c.Eval()
 	if ra, rb := routesKey(w.a), routesKey(w.b); ra != rb {
 		c.Violate("Routes() of the facade-built router differs from the plain one", map[string]any{"program": w.ops, "facade": ra, "plain": rb})
